@@ -288,10 +288,73 @@ Qed.
 
 Theorem develop_lattice_bad_dimensions (cell : rcell) (vecs : list rvec) bs spec :
   lc_fill cell = FSpec bs spec ->
-  List.length vecs <> List.length bs -> Z.of_nat (List.length vecs) <> dims bs ->
+  ((List.length bs < List.length vecs)%nat \/ ~ Forall trivial_range (skipn (List.length vecs) bs)) ->
   develop_lattice_with RS (Ok vecs) cell = Err ELattice.
 Proof.
-  intros Hf H1 H2. unfold develop_lattice_with. rewrite Hf. cbn [bind].
+  intros Hf H. unfold develop_lattice_with. rewrite Hf. cbn [bind].
   rewrite (dimension_checks_err (List.length vecs) bs); [reflexivity|].
-  intros E. apply dimension_checks_spec in E. tauto.
+  intros E. apply dimension_checks_spec in E. destruct E as [E1 E2]. destruct H as [H|H]; [lia|auto].
+Qed.
+
+(* the same statement with the dimension test spelled out: one range per base
+   vector, the surplus ranges one-point; the leading ranges may be one-point
+   ranges too (a row of a 2-D lattice, a single element) *)
+Theorem develop_lattice_located_ranges (cell : rcell) (vecs : list rvec) (bs : bounds) (spec : list Z) :
+  lc_fill cell = FSpec bs spec -> bs <> [] -> wf_bounds bs ->
+  Z.of_nat (List.length spec) = size bs ->
+  (List.length vecs <= List.length bs)%nat -> Forall trivial_range (skipn (List.length vecs) bs) ->
+  cell_shape_ok cell ->
+  exists elems, develop_lattice_with RS (Ok vecs) cell = Ok elems /\
+    map (@ne_index R) elems = map fst (filter nonzero (combine (indices bs) spec)) /\
+    NoDup (map (@ne_index R) elems) /\
+    Forall (fun e =>
+      in_ranges (ne_index e) bs /\
+      let u := nth (Z.to_nat (flat_index bs (ne_index e))) spec 0%Z in
+      u <> 0%Z /\ elem_located cell vecs u e) elems.
+Proof.
+  intros Hfill Hne Hwf Hlen Hn Hpad Hshape.
+  apply (develop_lattice_located cell vecs bs spec); auto.
+  apply dimension_checks_spec. now split.
+Qed.
+
+(* a row of a 2-D lattice: FILL=-1:1 k:k 0:0 *)
+Lemma indices_row k : indices [(-1, 1); (k, k); (0, 0)]%Z = [[-1; k; 0]; [0; k; 0]; [1; k; 0]]%Z.
+Proof.
+  cbn [indices]. unfold zrange. replace (k + 1 - k)%Z with 1%Z by lia. reflexivity.
+Qed.
+
+Theorem degenerate_ranges_developed (cell : rcell) (a1 a2 : rvec) (k u0 u1 u2 : Z) :
+  lc_fill cell = FSpec [(-1, 1); (k, k); (0, 0)]%Z [u0; u1; u2] -> cell_shape_ok cell ->
+  exists elems, develop_lattice_with RS (Ok [a1; a2]) cell = Ok elems /\
+    map (@ne_index R) elems
+    = map fst (filter nonzero [([-1; k; 0], u0); ([0; k; 0], u1); ([1; k; 0], u2)]%Z) /\
+    Forall (fun e => exists i u,
+      ne_index e = [i; k; 0]%Z /\ (-1 <= i <= 1)%Z /\ u = nth (Z.to_nat (i + 1)) [u0; u1; u2] 0%Z /\
+      u <> 0%Z /\ lattice_point [a1; a2] (ne_index e)
+                  = vadd RS (rescale RS (IZR i) a1) (vadd RS (rescale RS (IZR k) a2) (0, 0, 0)) /\
+      elem_located cell [a1; a2] u e) elems.
+Proof.
+  intros Hfill Hshape.
+  destruct (develop_lattice_located_ranges cell [a1; a2] [(-1, 1); (k, k); (0, 0)]%Z [u0; u1; u2] Hfill)
+    as (elems & H1 & H2 & _ & H4); auto.
+  - discriminate.
+  - repeat constructor; cbn [fst snd]; lia.
+  - rewrite !size_cons, size_nil. cbn [List.length]. lia.
+  - cbn; lia.
+  - cbn [List.length skipn]. repeat constructor.
+  - exists elems. split; [exact H1|]. split.
+    + rewrite H2, indices_row. reflexivity.
+    + eapply Forall_impl; [|exact H4]. intros e (Hin & Hu & He). cbv zeta in Hu, He.
+      inversion Hin as [|i b1 tl1 r1 Hi Hin1 E1 E2]; subst.
+      inversion Hin1 as [|j b2 tl2 r2 Hj Hin2 E3 E4]; subst.
+      inversion Hin2 as [|l b3 tl3 r3 Hl Hin3 E5 E6]; subst.
+      inversion Hin3; subst. cbn [fst snd] in Hi, Hj, Hl.
+      assert (j = k) by lia. assert (l = 0%Z) by lia. subst j l.
+      rewrite <- E1 in *.
+      assert (Hflat : flat_index [(-1, 1); (k, k); (0, 0)]%Z [i; k; 0%Z] = (i + 1)%Z)
+        by (cbn [flat_index]; lia).
+      rewrite Hflat in Hu, He.
+      exists i, (nth (Z.to_nat (i + 1)) [u0; u1; u2] 0%Z).
+      split; [now symmetry|]. split; [lia|]. split; [reflexivity|]. split; [exact Hu|].
+      split; [reflexivity|exact He].
 Qed.
